@@ -117,6 +117,8 @@ func (pc *pooledConnectImpl) ReadMoreResult(maxRows int) (*mysql.Result, error) 
 	// set default to false
 	pc.moreResultsExist = false
 	rs, err := pc.directConnection.readResult(false, maxRows)
+	// like Execute: the reader may have stopped after mysql.MaxPayloadLen bytes of rows
+	pc.moreRowsExist = pc.directConnection.moreRowExists
 	if err != nil {
 		return nil, err
 	}
